@@ -443,6 +443,8 @@ func checkC05(c *Ctx) {
 		})
 	}
 
+	checkC05ScanErr(c, c.Rule("C05.scan-err", "gorm.Scan consults rows.Err() before every exit that follows row iteration", 2))
+
 	// ---- C05.batch ----
 	checkBatchBracket(c, c.Rule("C05.batch", "CreateInBatches: batch loop runs inside Transaction unless SkipDefaultTransaction or a single batch", 2))
 }
